@@ -8,7 +8,7 @@
    the visible history.  Hence (FactorSpec.factor_block_decodes) the emitted
    block is decoded by the specification's decoder to exactly the input. *)
 From Coq Require Import ZArith List Lia Bool ZifyBool.
-From LZ4V Require Import Gen.Consts Spec.BlockSpec Model.Mem Model.Fast Proofs.FactorSpec Proofs.FastBasics.
+From LZ4V Require Import Gen.Consts Spec.BlockSpec Model.Mem Model.Fast Proofs.BlockSpecProofs Proofs.FactorSpec Proofs.FastBasics.
 Import ListNotations.
 Local Open Scope Z_scope.
 
@@ -92,10 +92,18 @@ Section Sound.
   Qed.
 
   (* ---- invariants ---- *)
+  (* the end-of-block restrictions of the format: the last match ends at least LASTLITERALS
+     and starts at least MFLIMIT bytes before the end of the input *)
+  Definition end_inv (s : cstate) : Prop :=
+    match c_seqs s with
+    | [] => True
+    | q :: _ => c_anchor s <= mlim /\ c_anchor s - s_mlen q <= iend_ - MFLIMIT
+    end.
   Definition SInv (s : cstate) : Prop :=
     startIndex <= c_anchor s /\
     seqs_valid vrd hist_lo startIndex (rev (c_seqs s)) /\
-    seqs_end startIndex (rev (c_seqs s)) = c_anchor s.
+    seqs_end startIndex (rev (c_seqs s)) = c_anchor s /\
+    end_inv s.
 
   Definition MPre (s : cstate) (litLength mi low filledIp : Z) : Prop :=
     SInv s /\ c_anchor s <= c_ip s /\ litLength = c_ip s - c_anchor s /\
@@ -117,6 +125,7 @@ Section Sound.
     | RFail tab => tab_ok endB tab
     | ROk ss last consumed tab _ =>
       tab_ok endB tab /\
+      end_ok ss last = true /\
       consumed = inputSize /\ seqs_valid vrd hist_lo startIndex ss /\
       seqs_end startIndex ss <= startIndex + inputSize /\
       last = seg vrd (seqs_end startIndex ss) (startIndex + inputSize)
@@ -206,7 +215,7 @@ Section Sound.
                       s t l mi low fi).
   Proof.
     intros (HS & Hai & Hl & Hlow & Hmi & Hoff & Hip & Hfi & Heq & Ht).
-    destruct HS as (HS1 & HS2 & HS3).
+    destruct HS as (HS1 & HS2 & HS3 & _).
     unfold next_match. cbv zeta.
     set (i := c_ip s) in *.
     assert (Hi4 : i + MINMATCH <= mlim) by (unfold mlim, matchlimit, mfl, mflimitPlusOne, iend, MFLIMIT, LASTLITERALS, MINMATCH in *; lia).
@@ -229,7 +238,7 @@ Section Sound.
     { intros ip o tab hw. unfold SInv. cbn [c_anchor c_seqs rev].
       assert (Hll : Z.of_nat (length (s_lits sq)) = l).
       { unfold sq. cbn [s_lits]. rewrite lits_length. lia. }
-      split; [unfold i1, MINMATCH; lia|]. split.
+      split; [unfold i1, MINMATCH; lia|]. split; [|split].
       - apply seqs_valid_app; [exact HS2|]. cbv zeta. rewrite HS3, Hll. split.
         + unfold sq. cbn [s_lits]. apply lits_seg. exact Hl0.
         + unfold sq. cbn [s_off s_mlen]. unfold match_ok.
@@ -240,7 +249,9 @@ Section Sound.
           unfold MINMATCH in *.
           replace (i + k) with (i + 4 + (k - 4)) by lia. replace (mi + k) with (mi + 4 + (k - 4)) by lia.
           apply Hc2. lia.
-      - rewrite seqs_end_app, HS3, Hll. unfold sq. cbn [s_mlen]. unfold i1. lia. }
+      - rewrite seqs_end_app, HS3, Hll. unfold sq. cbn [s_mlen]. unfold i1. lia.
+      - unfold end_inv. cbn [c_seqs c_anchor]. unfold sq. cbn [s_mlen].
+        unfold i1, mfl, mflimitPlusOne, iend_ in *. lia. }
     assert (Hi1 : Z.max fi i < i1) by (unfold i1, MINMATCH; lia).
     assert (Hi1m : i1 <= mlim) by (unfold i1; lia).
     (* shape of the rest, independent of op / hw bookkeeping *)
@@ -312,10 +323,15 @@ Section Sound.
     SInv s -> c_anchor s <= iend_ -> tab_ok endB (c_tab s) ->
     RPost (last_literals vrd od startIndex inputSize maxOutputSize s).
   Proof.
-    intros (H1 & H2 & H3) Ha Htb. unfold last_literals. cbv zeta. fold iend_.
+    intros (H1 & H2 & H3 & H5) Ha Htb. unfold last_literals. cbv zeta. fold iend_.
     assert (G : forall hw, RPost (ROk (rev (c_seqs s)) (lits vrd (Z.to_nat (iend_ - c_anchor s)) (c_anchor s))
                                        (c_anchor s + (iend_ - c_anchor s) - startIndex) (c_tab s) hw)).
     { intros hw. cbn [RPost]. rewrite H3. split; [exact Htb|].
+      split.
+      { unfold end_ok. rewrite rev_involutive. unfold end_inv in H5.
+        destruct (c_seqs s) as [|q r]; [reflexivity|]. destruct H5 as [H5a H5b].
+        rewrite lits_length.
+        unfold mlim, matchlimit, iend_, iend, LASTLITERALS, MFLIMIT in *. lia. }
       split; [unfold iend_, iend; lia|]. split; [exact H2|]. split; [unfold iend_, iend in *; lia|].
       rewrite lits_seg by lia. f_equal. unfold iend_, iend. lia. }
     destruct od; try (exfalso; apply Hod; reflexivity).
@@ -359,7 +375,7 @@ Section Sound.
   Proof.
     intros Hn Ht. unfold compress_validated.
     assert (HS0 : forall ip o t hw, SInv (mkC ip startIndex o [] t hw)).
-    { intros. unfold SInv. cbn [c_anchor c_seqs rev seqs_valid seqs_end]. repeat split; lia. }
+    { intros. unfold SInv, end_inv. cbn [c_anchor c_seqs rev seqs_valid seqs_end]. repeat split; lia. }
     assert (Ef : (match od with FillOutput => true | _ => false end) = false).
     { destruct od; try reflexivity. exfalso; apply Hod; reflexivity. }
     rewrite Ef. cbn [andb]. cbv zeta.
@@ -382,10 +398,27 @@ Section Sound.
       = Some (seg vrd startIndex (startIndex + inputSize)).
   Proof.
     intros Hn Ht E. pose proof (compress_validated_factor tab Hn Ht) as H. rewrite E in H.
-    cbn [RPost] in H. destruct H as (_ & H1 & H2 & H3 & H4).
+    cbn [RPost] in H. destruct H as (_ & _ & H1 & H2 & H3 & H4).
     split; [exact H1|].
     apply (factor_block_decodes vrd hist_lo startIndex (startIndex + inputSize) ss last Hb hist_lo_le H2 H3 H4).
+  Qed.
+
+  (* ... and the block also satisfies the end-of-block restrictions of the format *)
+  Theorem compress_validated_strict tab ss last consumed tab' hw :
+    0 <= inputSize -> tab_ok (startIndex + 1) tab ->
+    compress_validated vrd tt od dd dictSmall startIndex dictSize dtable dictDelta inputSize maxOutputSize
+                       acceleration tab = ROk ss last consumed tab' hw ->
+    strict_valid (seg vrd hist_lo startIndex) (encode_block ss last)
+      = Some (seg vrd startIndex (startIndex + inputSize)).
+  Proof.
+    intros Hn Ht E. pose proof (compress_validated_factor tab Hn Ht) as H. rewrite E in H.
+    cbn [RPost] in H. destruct H as (_ & He & H1 & H2 & H3 & H4).
+    rewrite strict_valid_encode.
+    - rewrite He. apply (factor_decodes vrd hist_lo startIndex (startIndex + inputSize) ss last hist_lo_le H2 H3 H4).
+    - eapply seqs_valid_wf; eauto.
+    - subst last. apply seg_bytes_ok. exact Hb.
   Qed.
 End Sound.
 
 Print Assumptions compress_validated_roundtrip.
+Print Assumptions compress_validated_strict.
